@@ -287,10 +287,18 @@ def check(run, views, tier):
                     if l.get("k") == "field" and l["name"] == FLAG:
                         writers.append((path, body, n))
                 if n.get("k") == "struct" and (n.get("path") or "").startswith(BUILDER) and path != BUILDER + "::<T>::new":
+                    upd = "base" in n and unwrap(n["base"]).get("k") == "path" and unwrap(n["base"]).get("res", {}).get("r") == "local"
+                    if upd and FLAG not in [f["name"] for f in n["fields"]]:
+                        continue        # `Self { other: v, ..self }` carries the flag over unchanged
                     writers.append((path, body, n))
         for path, body, n in writers:
-            ok = path == BUILDER + "::<T>::ignore_tls_errors" and n.get("k") == "assign" and unwrap(n["r"]).get("k") == "path" and \
-                unwrap(n["r"])["res"].get("r") == "local" and unwrap(n["r"])["res"]["name"] == body["params"][1].get("name")
+            rhs = None
+            if n.get("k") == "assign":
+                rhs = unwrap(n["r"])
+            elif n.get("k") == "struct" and "base" in n and unwrap(n["base"]).get("k") == "path" and unwrap(n["base"]).get("res", {}).get("r") == "local":
+                rhs = [unwrap(f["e"]) for f in n["fields"] if f["name"] == FLAG][0]      # `Self { flag: v, ..self }` is `self.flag = v; self`
+            ok = path == BUILDER + "::<T>::ignore_tls_errors" and rhs is not None and rhs.get("k") == "path" and \
+                rhs["res"].get("r") == "local" and rhs["res"]["name"] == body["params"][1].get("name")
             run.ob("R-TLSGATE", "flag writer %s stores its parameter" % path, ok, "unexpected writer of %s: %s" % (FLAG, show(n)[:120]), site(body, n),
                    key="R-TLSGATE|%s|writer" % path)
         run.floor("R-TLSGATE", len(writers), 1, "writers of the opt-out flag (the public setter)")
